@@ -331,7 +331,7 @@ var propDeps = map[string][]string{
 	"C04b": {"C04"},
 	// C20: the classifications agree "across the library", including the type under which the stream
 	// handler delivers a frame (the framing rule of C03: a valid frame comes out under its own type)
-	"C20": {"C03", "C02"},
+	"C20": {"C03", "C02", "C04"},
 	// C19: "parsing the traffic ... never ... withholds or stops the relayed stream": the parser the
 	// proxy starts consumes its whole input (the lossless-segmentation clauses of the framing stage)
 	"C19": {"C02", "C18"}, // ... and the report lists the messages the queue holds (C18 clauses)
